@@ -16,7 +16,7 @@ CHARTUTIL = {"pkg": "./pkg/chart/v2/util", "files": ["pkg/chart/v2/util/h_values
 
 CHECKS = {
     "C11": {
-        "runs": [dict(pkg="./pkg/chart/v2/util", files=["pkg/chart/v2/util/h_c11_enabled.go"], entries=["H11Enabled", "H11Alias"], bounds_quick={"minor": 4}, bounds_thorough={"minor": 5}),
+        "runs": [dict(pkg="./pkg/chart/v2/util", files=["pkg/chart/v2/util/h_c11_enabled.go", "pkg/chart/v2/util/h_c11_deep.go"], entries=["H11Enabled", "H11Alias", "H11Deep"], bounds_quick={"minor": 4}, bounds_thorough={"minor": 5}),
                  dict(CHARTUTIL, entries=["H11Scope"], bounds_quick={"depth": 2, "slim": 1, "pdepth": 0}, bounds_thorough={"depth": 2, "slim": 1, "pdepth": 1})],
         "bounds": {}, "assumptions": [],
     },
@@ -28,7 +28,7 @@ CHECKS = {
         "bounds": {}, "assumptions": [],
     },
     "C18": {
-        "runs": [dict(REPOPKG, entries=["H18Index"], bounds_quick={"entries": 2, "shapes": 6, "maxdigit": 3}, bounds_thorough={"entries": 3, "shapes": 6, "maxdigit": 3})],
+        "runs": [dict(REPOPKG, entries=["H18Index"], bounds_quick={"entries": 2, "shapes": 8, "maxdigit": 3}, bounds_thorough={"entries": 3, "shapes": 8, "maxdigit": 3})],
         "bounds": {}, "assumptions": [],
     },
     "C08": {
@@ -133,7 +133,7 @@ CHECKS = {
     "C20": {
         "runs": [
             dict(STRVALS, entries=["H04SetFrame", "H20SetTypeConfusion", "H20SetDeep"], bounds_quick={"maxlen": 5, "deeplen": 3}, bounds_thorough={"maxlen": 6, "deeplen": 5}),
-            dict(REPOPKG, entries=["H18Index"], bounds_quick={"entries": 2, "shapes": 6, "maxdigit": 3}, bounds_thorough={"entries": 3, "shapes": 6, "maxdigit": 3}),
+            dict(REPOPKG, entries=["H18Index"], bounds_quick={"entries": 2, "shapes": 8, "maxdigit": 3}, bounds_thorough={"entries": 3, "shapes": 8, "maxdigit": 3}),
             dict(pkg="./pkg/storage/driver", files=["pkg/storage/driver/h_c10_backends.go"], entries=["H20Corrupt"]),
             dict(pkg="./pkg/chart/v2/util", files=["pkg/chart/v2/util/h_c20_import.go"], entries=["H20Import"], bounds_quick={"entries": 1}, bounds_thorough={"entries": 2}),
         ],
